@@ -30,8 +30,12 @@ def snrSum (snr bw snrAdded : α) : α :=
   -(lin2db (db2lin (-snr) + db2lin (-sa)))
 
 /-- `snr_added = 0; for s in args: if s is not None: snr_added += db2lin(-s)` -/
-def addedLin (args : List (Option α)) : α :=
-  args.foldl (fun acc s => match s with | some v => acc + db2lin (-v) | none => acc) ((0:Nat) : α)
+def addStep (acc : α) (s : Option α) : α :=
+  match s with
+  | some v => acc + db2lin (-v)
+  | none => acc
+
+def addedLin (args : List (Option α)) : α := args.foldl addStep ((0:Nat) : α)
 
 /-- `snr_added = -lin2db(snr_added)` -/
 def snrAdded (args : List (Option α)) : α := -(lin2db (addedLin args))
